@@ -162,6 +162,17 @@ class TrajectoryRun:
                 # multi-stage treatment through the public setter between solve() calls
                 self.active_schedule = stages[si]
                 m.setTemperature(*precip.schedule_args(stages[si]))
+            for ch in (cfg.get('stage_changes') or {}).get(str(si), []):
+                # parameters changed through public setters between two solve() calls
+                if ch['what'] == 'gamma':
+                    m.setInterfacialEnergy(m.precipitateParameters[m.phaseIndex(ch['phase'])].gamma * ch['factor'], phase=ch['phase'])
+                elif ch['what'] == 'VmBeta':
+                    pp = m.precipitateParameters[m.phaseIndex(ch['phase'])]
+                    m.setVolumeBeta(pp.volume.Vm * ch['factor'], 'VM', pp.volume.atomsPerCell, phase=ch['phase'])
+                elif ch['what'] == 'VmAlpha':
+                    vol = m.matrixParameters.volume
+                    m.setVolumeAlpha(vol.Vm * ch['factor'], 'VM', vol.atomsPerCell)
+                R.observe('parameter_changes_between_calls')
             t_before = float(m.pData.time[m.pData.n])
             try:
                 m.solve(float(seg), solverType=self.iterator,
